@@ -51,8 +51,40 @@ fn corpus() -> Vec<Case> {
         ops: ops.into_iter().enumerate().map(|(i, o)| ((i as u64 + 1) * 1_000_000_000, o)).collect(),
     };
     vec![
-        // Coq: C19_text_cut_refuted - println while not even the first frame line fits the height
+        // open finding D14 (Coq: C19_text_cut_refuted): println while not even the first frame line fits the height
         mk(3, 1, sbar(vec![TPart::Lit("AAAA".into())]), vec![Op::Tick(0), Op::Println(0, "x".into()), Op::Println(0, "y".into())]),
+        // open finding D17 (Coq: C19_D17_reaped_behind_cut_witness): a head zombie behind the cut is reaped unpainted
+        {
+            let hb = |tmpl: Vec<TPart>| BarInit { len: None, fin: Fin::AndLeave, tmpl, target: TInit::Hidden };
+            let one = |x: &str| vec![TPart::Lit(x.into())];
+            Case {
+                w: 3,
+                h: 2,
+                fail_at: vec![],
+                fail_from: None,
+                mp: TInit::Term(None),
+                bars: vec![hb(one("Z")), hb(vec![TPart::Lit("P".into()), TPart::NewLine, TPart::Lit("p".into())]), hb(one("Q")), hb(one("R"))],
+                ops: vec![
+                    Op::Insert(Loc::End, 0),
+                    Op::Insert(Loc::End, 1),
+                    Op::Insert(Loc::End, 2),
+                    Op::Insert(Loc::End, 3),
+                    Op::Tick(0),
+                    Op::Tick(1),
+                    Op::Tick(2),
+                    Op::Tick(3),
+                    Op::Drop(1),
+                    Op::Drop(2),
+                    Op::Remove(0),
+                    Op::Tick(3),
+                    Op::Tick(3),
+                ]
+                .into_iter()
+                .enumerate()
+                .map(|(i, o)| ((i as u64 + 1) * 1_000_000_000, o))
+                .collect(),
+            }
+        },
         // Coq: C19_example_cut_then_room - frame taller than the terminal, then it shrinks and fits
         mk(
             2,
